@@ -1207,8 +1207,14 @@ func checkFile(c *core.Ctx, fc *fcase, data []byte, label string) bool {
 						ok = false
 					}
 					if fc.NoStats {
-						if h.has {
-							viol("page-stats-unwanted", fmt.Sprintf("%s page %d: statistics written although disabled", where, p))
+						// the statistics struct of the header is always serialised
+						// (null_count has no unset form): no bounds, but a true count
+						if h.stats.MinValue != nil || h.stats.MaxValue != nil || h.stats.Min != nil || h.stats.Max != nil {
+							viol("page-stats-unwanted", fmt.Sprintf("%s page %d: bounds written although page statistics are disabled", where, p))
+							ok = false
+						}
+						if h.stats.NullCount != nulls {
+							viol("page-null-count", fmt.Sprintf("%s page %d (page statistics disabled): header null_count %d, real %d", where, p, h.stats.NullCount, nulls))
 							ok = false
 						}
 						continue
